@@ -318,3 +318,48 @@ package table
 //@   ensures result != nil ==> (result.Status == oc.RPKI_VALIDATION_RESULT_TYPE_VALID <==> len(result.Matched) != 0)
 //@   ensures result != nil ==> (result.Status == oc.RPKI_VALIDATION_RESULT_TYPE_INVALID <==> len(result.Matched) == 0 && (len(result.UnmatchedAs) != 0 || len(result.UnmatchedLength) != 0))
 //@   ensures result != nil ==> (result.Status == oc.RPKI_VALIDATION_RESULT_TYPE_NOT_FOUND <==> len(result.Matched) == 0 && len(result.UnmatchedAs) == 0 && len(result.UnmatchedLength) == 0)
+
+// =============================================================================================
+// C10 — applying policy never changes the route as stored or as seen by any other peer
+// =============================================================================================
+//@ props C10
+
+// The policy actions work on a clone; what they may write is the clone's own attribute bookkeeping.
+// `no-alias-writes`: an append into spare capacity of memory that is neither fresh nor listed in `modifies`
+// would be visible through every other route sharing that backing array (the stored route, other peers' copies).
+//@ func (*Path).setPathAttr
+//@   requires path != nil
+//@   claims frame alias bounds
+//@   no-alias-writes
+//@   modifies path.pathAttrs, path.attrsHash, path.pathAttrs[:cap]
+//@ func (*Path).delPathAttr
+//@   requires path != nil
+//@   claims frame alias bounds
+//@   no-alias-writes
+//@   modifies path.dels, path.attrsHash, path.dels[:cap]
+
+
+//@ func (*Path).SetCommunities
+//@   requires path != nil
+//@   claims frame alias
+//@   no-alias-writes
+//@   assume-callee-frames
+//@   modifies path.pathAttrs, path.dels, path.attrsHash, path.pathAttrs[:cap], path.dels[:cap]
+//@ func (*Path).SetLargeCommunities
+//@   requires path != nil
+//@   claims frame alias
+//@   no-alias-writes
+//@   assume-callee-frames
+//@   modifies path.pathAttrs, path.dels, path.attrsHash, path.pathAttrs[:cap], path.dels[:cap]
+//@ func (*Path).SetExtCommunities
+//@   requires path != nil
+//@   claims frame alias
+//@   no-alias-writes
+//@   assume-callee-frames
+//@   modifies path.pathAttrs, path.dels, path.attrsHash, path.pathAttrs[:cap], path.dels[:cap]
+//@ func (*Path).SetIP6ExtCommunities
+//@   requires path != nil
+//@   claims frame alias
+//@   no-alias-writes
+//@   assume-callee-frames
+//@   modifies path.pathAttrs, path.dels, path.attrsHash, path.pathAttrs[:cap], path.dels[:cap]
